@@ -73,7 +73,7 @@ def run(tier, seed):
                  "allocation-size provenance in lib/ (sizes are linear forms over admissible symbols; the 1 MiB ceiling is an "
                  "available fact at the header reallocation; decoder state size is summed over all decoder types). Counted loops whose counter is narrower than its "
                  "bound need the bound to fit (proved or listed); per-member decoder objects are released before the next member; the basic reader never hands the previous "
-                 "member out again after a failed skip. Claimed in part: "
+                 "member out again after a failed skip. Counted classes also require that the bound leaves the counter room to get past it inside its own width (no 'k <= MAX' loops); the interactive prompt never returns at end of input. Claimed in part: "
                  "does not decide the linear step budget or heap peak as numbers; termination of read-driven loops assumes the "
                  "stream reports exhaustion (finite input), and for endless pm1 input rests on the declared-length clamp (C14.R2).")
     with Context(tier) as ctx:
